@@ -284,4 +284,13 @@ theorem validReplace_cons (cfg st p ps) :
   cases cfg.withFullPath <;> cases fromRootOk cfg st.tree.name (norm cfg p) <;>
     cases toRootOk cfg st.dst.name (norm cfg p) <;> simp
 
+theorem loop_src {cfg st ps st'} (h : loop cfg st ps = .ok st') : st'.src = st.src := by
+  induction ps generalizing st with
+  | nil => simp [loop] at h; rw [h]
+  | cons p ps ih =>
+    simp only [loop] at h
+    cases hs : step cfg st p with
+    | error e => rw [hs] at h; simp at h
+    | ok st1 => rw [hs] at h; rw [ih h, (step_name hs).2]
+
 end Modify
